@@ -478,6 +478,39 @@ func TestVerif_C12_Confinement(t *testing.T) {
 				m.physPfx = newPfx
 				nontrivial = true
 			},
+			// While the separately sealed namespace is sealed, the root namespace is asked to mount a backend at a path
+			// below the sealed namespace's path. Whether that is accepted is not the property's business (observation);
+			// if it is, the mount is the root namespace's: what it stores lies outside the sealed namespace's storage.
+			"root-mount-below-sealed-namespace-path": func(rt *rapid.T) {
+				var sealedNS *c12NS
+				for _, n := range w.nss {
+					if n.sealable && n.sealed {
+						sealedNS = n
+					}
+				}
+				if sealedNS == nil {
+					rt.Skip("no sealed namespace")
+				}
+				w.nwrite++
+				mp := fmt.Sprintf("%sshadow%d", sealedNS.path, w.nwrite)
+				mr := tc.req(logical.UpdateOperation, "sys/mounts/"+mp, tc.root, map[string]any{"type": "recbe"})
+				w.logf("root namespace mounts at %q while %q is sealed -> %v", mp, sealedNS.path, mr)
+				if !mr.ok() {
+					rec.Class("observation:root-mount-below-sealed-namespace-path:refused", 1)
+					return
+				}
+				rec.Class("observation:root-mount-below-sealed-namespace-path:accepted", 1)
+				seq := tc.rec.Seq()
+				wr := tc.req(logical.UpdateOperation, mp+"/kv/x", tc.root, map[string]any{"v": "shadow"})
+				for _, o := range tc.rec.OpsSince(seq) {
+					if (o.Kind == "put" || o.Kind == "delete" || o.Kind == "get") && strings.HasPrefix(o.Key, sealedNS.physPfx) {
+						fail("sealed-namespace-storage-touched", fmt.Sprintf("a request to the root namespace's mount %q (made while %q is sealed) performed %s %q below the sealed namespace's storage (%v)", mp, sealedNS.path, o.Kind, o.Key, wr))
+					}
+				}
+				if ur := tc.req(logical.DeleteOperation, "sys/mounts/"+mp, tc.root, nil); !ur.ok() {
+					t.Fatalf("harness: unmount %s: %v", mp, ur)
+				}
+			},
 			// A batch token carries its namespace inside its protected payload; the ".<namespace id>" suffix of the id is
 			// only a routing hint that whoever presents the token can cut off or replace. However it is presented, a
 			// batch token of namespace N authorises nothing outside N and its descendants.
